@@ -47,7 +47,7 @@ def run_one(path, repo="/repo", keep=False):
             shutil.rmtree(tmp, ignore_errors=True)
 
 
-ALL_PROPS = "C01 C02 C03 C05 C06 C07 C08 C09 C10 C11 C12 C13 C14 C15 C16 C17 C18 C19 C20".split()
+ALL_PROPS = "C01 C02 C03 C04 C05 C06 C07 C08 C09 C10 C11 C12 C13 C14 C15 C16 C17 C18 C19 C20".split()
 
 
 def run_benign(path, repo="/repo"):
